@@ -37,7 +37,9 @@ type BoxStream = Pin<Box<dyn tokio_stream::Stream<Item = Result<Vec<u8>, Status>
 #[tonic::async_trait]
 impl Svc for H {
     async fn unary(&self, r: Request<Vec<u8>>) -> Result<Response<Vec<u8>>, Status> {
-        self.log.ev(json!({"e":"handler","peer_certs": r.peer_certs().map(|c| c.len() as i64).unwrap_or(-1)}));
+        // Request::peer_certs() only knows TCP / UDS connect infos; over the in-memory pipe the same data is in TlsConnectInfo<()>
+        let via_ext = r.extensions().get::<tonic::transport::server::TlsConnectInfo<()>>().and_then(|i| i.peer_certs()).map(|c| c.len() as i64);
+        self.log.ev(json!({"e":"handler","peer_certs": r.peer_certs().map(|c| c.len() as i64).or(via_ext).unwrap_or(-1)}));
         Ok(Response::new(vec![1]))
     }
     async fn cstream(&self, _r: Request<Streaming<Vec<u8>>>) -> Result<Response<Vec<u8>>, Status> { Err(Status::unimplemented("")) }
